@@ -92,6 +92,14 @@ func (c *Conv) Apply(inputs []tensor.Tensor) ([]tensor.Tensor, error) {
 	kernel := inputs[1]
 	bias := inputs[2]
 
+	// Attributes that were not given are derived from the operands of this call (and the kernel
+	// shape and pads are adjusted for dilation and auto_pad). They must not outlive the call: the
+	// operator may be applied to other operands afterwards.
+	dilations, kernelShape, pads, strides := c.dilations, c.kernelShape, c.pads, c.strides
+	defer func() {
+		c.dilations, c.kernelShape, c.pads, c.strides = dilations, kernelShape, pads, strides
+	}()
+
 	if len(c.dilations) == 0 {
 		c.setDefaultDilations(x)
 	}
